@@ -7,7 +7,7 @@ include!("common.inc");
 #[test]
 fn verif_native_argument_split() {
     let name = "verif_native_argument_split";
-    let inputs = verif_strings(&['a', 'b', ' ', ';', '\n', 'é'], 7);
+    let inputs = verif_strings(&['a', 'b', ' ', ';', '\n', 'é'], if verif_deep() { 9 } else { 7 });
     let mut evaluated = 0u64;
     for s in &inputs {
         evaluated += 1;
